@@ -92,7 +92,9 @@ static void workload(struct tctx* c) {
       }
       if (vh_below(&r, 3) == 0) {
         unsigned char* ab = NULL; size_t abn = 0;
-        STAMP(F_SERIALIZE_ALLOC, cbor_serialize_alloc(it, &ab, &abn));
+        /* the size out-parameter is optional: exercise both forms */
+        if (vh_below(&r, 2)) { STAMP(F_SERIALIZE_ALLOC, cbor_serialize_alloc(it, &ab, &abn)); }
+        else { STAMP(F_SERIALIZE_ALLOC, abn = cbor_serialize_alloc(it, &ab, NULL)); }
         if (ab) { dg = vh_hash_mix(dg, vh_hash(ab, abn)); _cbor_free(ab); }
       }
       if (vh_below(&r, 4) == 0) {
